@@ -568,6 +568,7 @@ struct GF {
     path: String,
     frags: Vec<String>,
     ops: usize,
+    named_ops: Vec<(String, String)>, // (query|mutation|subscription, name): operations whose names may collide with requested names
     imports: Vec<(String, Vec<String>)>, // path as written, targets ("*" = wildcard)
     mixed: bool,                         // import lines interleaved with definitions
 }
@@ -576,6 +577,7 @@ fn render(f: &GF, file_idx: usize, rng: Option<&mut Rng>) -> String {
     let mut defs: Vec<String> = vec![];
     let mut id = file_idx as u64 * 100;
     for n in &f.frags { defs.push(format!("fragment {} on T {{ d{} }}", n, id)); id += 1; }
+    for (kind, n) in &f.named_ops { defs.push(format!("{} {} {{ d{} }}", kind, n, id)); id += 1; }
     for k in 0..f.ops { defs.push(format!("query Q{}x{} {{ d{} }}", file_idx, k, id)); id += 1; }
     let imps: Vec<String> = f.imports.iter().map(|(p, ts)| format!("#import {} from \"{}\"", ts.join(", "), p)).collect();
     if f.mixed {
@@ -613,16 +615,28 @@ fn random_graph(rng: &mut Rng, max_files: usize) -> GCase {
                 let name = rng.pick(POOL).to_string();
                 if !frags.contains(&name) || rng.chance(1, 25) { frags.push(name); }
             }
+            // operations named like fragments (possibly like a fragment of the same file): only
+            // FragmentDefinitions may be imported, whatever else carries the requested name
+            let mut named_ops: Vec<(String, String)> = vec![];
+            if rng.chance(1, 3) {
+                for _ in 0..rng.range(1, 2) {
+                    let kind = *rng.pick(&["query", "mutation", "subscription"]);
+                    let name = if !frags.is_empty() && rng.chance(1, 3) { rng.pick(&frags).clone() } else { rng.pick(POOL).to_string() };
+                    if !named_ops.iter().any(|(_, n)| n == &name) { named_ops.push((kind.to_string(), name)); }
+                }
+            }
             GF {
                 path: format!("{}/f{}.graphql", DIRS[rng.below(ndirs)], i),
                 frags,
-                ops: if i == 0 || nf == 0 { 1 } else { rng.below(2) * rng.below(2) },
+                ops: if (i == 0 || nf == 0) && named_ops.is_empty() { 1 } else { rng.below(2) * rng.below(2) },
+                named_ops,
                 imports: vec![],
                 mixed: rng.chance(1, 4),
             }
         })
         .collect();
-    let gen_targets = |rng: &mut Rng, target_frags: &[String]| -> Vec<String> {
+    let gen_targets = |rng: &mut Rng, target_names: &[String]| -> Vec<String> {
+        let target_frags = target_names;
         if rng.chance(1, 4) { return vec!["*".into()]; }
         let k = rng.range(1, 2);
         let mut ts = vec![];
@@ -639,7 +653,7 @@ fn random_graph(rng: &mut Rng, max_files: usize) -> GCase {
             let parent = rng.below(j);
             let (from, to) = (gfs[parent].path.clone(), gfs[j].path.clone());
             let p = spell(rng, &from, &to);
-            let tf = gfs[j].frags.clone();
+            let tf: Vec<String> = gfs[j].frags.iter().cloned().chain(gfs[j].named_ops.iter().map(|(_, n)| n.clone())).collect();
             let ts = gen_targets(rng, &tf);
             gfs[parent].imports.push((p, ts));
         }
@@ -660,7 +674,7 @@ fn random_graph(rng: &mut Rng, max_files: usize) -> GCase {
                 let j = if rng.chance(1, 14) { i } else { rng.below(n) };
                 let to = gfs[j].path.clone();
                 let p = spell(rng, &from, &to);
-                let tf = gfs[j].frags.clone();
+                let tf: Vec<String> = gfs[j].frags.iter().cloned().chain(gfs[j].named_ops.iter().map(|(_, n)| n.clone())).collect();
                 let ts = gen_targets(rng, &tf);
                 gfs[i].imports.push((p, ts));
             }
@@ -737,6 +751,30 @@ fn corpus() -> Vec<GCase> {
             f("/p/main.graphql", "#import * from \"./x.graphql\"\n#import * from \"./x.graphql\"\nquery Q { d0 }\n"),
             f("/p/x.graphql", "fragment A on T { d100 }\n"),
         ], 0),
+        mk("operation named like the request, alone", vec![
+            f("/p/main.graphql", "#import User from \"./user.graphql\"\nquery Main { d0 }\n"),
+            f("/p/user.graphql", "query User { d100 }\nfragment Other on T { d101 }\n"),
+        ], 0),
+        mk("operation next to a same-named fragment", vec![
+            f("/p/main.graphql", "#import User from \"./user.graphql\"\nquery Main { d0 }\n"),
+            f("/p/user.graphql", "query User { d100 }\nfragment User on T { d101 }\nmutation User { d102 }\n"),
+        ], 0),
+        mk("operation name hides a second missing name", vec![
+            f("/p/main.graphql", "#import User, Missing from \"./user.graphql\"\nquery Main { d0 }\n"),
+            f("/p/user.graphql", "fragment User on T { d100 }\nquery User { d101 }\n"),
+        ], 0),
+        mk("operation names under a wildcard", vec![
+            f("/p/main.graphql", "#import * from \"./user.graphql\"\nquery Main { d0 }\n"),
+            f("/p/user.graphql", "subscription User { d100 }\nfragment User on T { d101 }\nquery Other { d102 }\n"),
+        ], 0),
+        mk("operation-name cycle back into the root", vec![
+            f("/p/main.graphql", "#import F from \"./frag.graphql\"\nquery Main { d0 }\n"),
+            f("/p/frag.graphql", "#import Main from \"./main.graphql\"\nfragment F on T { d100 }\n"),
+        ], 0),
+        mk("operation-name cycle back into the root, root also has the fragment", vec![
+            f("/p/main.graphql", "#import F from \"./frag.graphql\"\nquery Main { d0 }\nfragment Main on T { d1 }\n"),
+            f("/p/frag.graphql", "#import Main from \"./main.graphql\"\nfragment F on T { d100 }\n"),
+        ], 0),
         mk("wildcard then name", vec![
             f("/p/main.graphql", "#import *, A from \"./x.graphql\"\nquery Q { d0 }\n"),
             f("/p/x.graphql", "fragment A on T { d100 }\n"),
@@ -750,6 +788,9 @@ fn corpus() -> Vec<GCase> {
 fn exhaustive(nfiles: usize, max_lines: &[usize], mut emit: impl FnMut(GCase)) {
     let names = ["m", "x", "y", "z"];
     let frags: [&[&str]; 4] = [&["A", "B"], &["A", "B"], &["A"], &[]];
+    // operations whose names collide with the requested names: next to a same-named fragment (x), instead of
+    // the missing fragment (y), alone (z)
+    let named_ops: [&[(&str, &str)]; 4] = [&[], &[("query", "A")], &[("mutation", "B")], &[("subscription", "A")]];
     let specs = ["*", "A", "B"];
     let opts: Vec<(usize, &str)> = (0..nfiles).flat_map(|t| specs.iter().map(move |s| (t, *s))).collect();
     // all sequences of length <= k over opts
@@ -772,7 +813,8 @@ fn exhaustive(nfiles: usize, max_lines: &[usize], mut emit: impl FnMut(GCase)) {
                 let gf = GF {
                     path: format!("/p/{}.graphql", names[i]),
                     frags: frags[i].iter().map(|s| s.to_string()).collect(),
-                    ops: if i == 0 || frags[i].is_empty() { 1 } else { 0 },
+                    ops: if i == 0 { 1 } else { 0 },
+                    named_ops: named_ops[i].iter().map(|(k, n)| (k.to_string(), n.to_string())).collect(),
                     imports: per_file[i][idx[i]].iter().map(|(t, s)| (format!("./{}.graphql", names[*t]), vec![s.to_string()])).collect(),
                     mixed: false,
                 };
@@ -795,6 +837,28 @@ fn exhaustive(nfiles: usize, max_lines: &[usize], mut emit: impl FnMut(GCase)) {
             i += 1;
         }
     }
+}
+
+/// `depth` layers of two files; every file imports `*` from both files of the next layer; the root imports both
+/// files of layer 0.  All lines that point at one file ask for the same thing, so the case is inside every guard.
+fn layered(depth: usize) -> GCase {
+    let name = |l: usize, s: usize| format!("/p/l{}{}.graphql", l, if s == 0 { "a" } else { "b" });
+    let mut files = vec![GFile {
+        path: "/p/main.graphql".into(),
+        text: "#import * from \"./l0a.graphql\"\n#import * from \"./l0b.graphql\"\nquery Q { d0 }\n".into(),
+    }];
+    for l in 0..depth {
+        for s in 0..2 {
+            let id = (1 + 2 * l + s) * 100;
+            let mut text = String::new();
+            if l + 1 < depth {
+                text.push_str(&format!("#import * from \"./l{}a.graphql\"\n#import * from \"./l{}b.graphql\"\n", l + 1, l + 1));
+            }
+            text.push_str(&format!("fragment F{}x{} on T {{ d{} }}\n", l, s, id));
+            files.push(GFile { path: name(l, s), text });
+        }
+    }
+    GCase { root_path: files[0].path.clone(), root_text: files[0].text.clone(), files, label: format!("layered-{}", depth) }
 }
 
 /// random sequences of items for resolve_operation_extensions alone (wildcard/specific state machine,
@@ -826,6 +890,7 @@ fn random_ext(rng: &mut Rng) -> String {
 // Observed: per file, the import-stage messages and the checker's "Fragment 'X' is not defined".
 
 struct EFile {
+    opname: Option<String>, // name of the file's query when it is to collide with fragment names
     rel: String, // below ops/
     frags: Vec<String>,
     imports: Vec<(String, Vec<String>)>,
@@ -836,11 +901,13 @@ fn render_e2e(f: &EFile, idx: usize) -> String {
     let mut id = idx * 100;
     for n in &f.frags { lines.push(format!("fragment {} on T {{ d{}: f }}", n, id)); id += 1; }
     let sp: Vec<String> = f.spreads.iter().map(|s| format!("...{}", s)).collect();
-    lines.push(format!("query Q{} {{ d{}: t {{ f {} }} }}", idx, id, sp.join(" ")));
+    let opname = f.opname.clone().unwrap_or(format!("Q{}", idx));
+    lines.push(format!("query {} {{ d{}: t {{ f {} }} }}", opname, id, sp.join(" ")));
     lines.join("\n") + "\n"
 }
 fn e2e_fixed() -> Vec<(String, Vec<EFile>)> {
     let ef = |rel: &str, frags: &[&str], imports: &[(&str, &[&str])], spreads: &[&str]| EFile {
+        opname: None,
         rel: rel.into(),
         frags: frags.iter().map(|s| s.to_string()).collect(),
         imports: imports.iter().map(|(p, ts)| (p.to_string(), ts.iter().map(|s| s.to_string()).collect())).collect(),
@@ -879,6 +946,14 @@ fn e2e_fixed() -> Vec<(String, Vec<EFile>)> {
             ef("rec/frag1.graphql", &["Frag1"], &[("frag2.graphql", &["Frag2"])], &["Frag2"]),
             ef("rec/frag2.graphql", &["Frag2"], &[("frag1.graphql", &["Frag1"])], &["Frag1"]),
         ]),
+        ("e2e operation named like the request".into(), vec![
+            ef("main.graphql", &[], &[("./user.graphql", &["User"])], &["User"]),
+            EFile { opname: Some("User".into()), ..ef("user.graphql", &["Other"], &[], &[]) },
+        ]),
+        ("e2e operation next to a same-named fragment, second name missing".into(), vec![
+            ef("main.graphql", &[], &[("./user.graphql", &["User", "Missing"])], &["User"]),
+            EFile { opname: Some("User".into()), ..ef("user.graphql", &["User"], &[], &[]) },
+        ]),
     ]
 }
 fn e2e_random(rng: &mut Rng) -> Vec<EFile> {
@@ -887,7 +962,8 @@ fn e2e_random(rng: &mut Rng) -> Vec<EFile> {
     let mut fs: Vec<EFile> = (0..n).map(|i| {
         let mut frags: Vec<String> = vec![];
         for _ in 0..rng.range(0, 3) { let nm = rng.pick(POOL).to_string(); if !frags.contains(&nm) { frags.push(nm); } }
-        EFile { rel: format!("{}f{}.graphql", dirs[rng.below(3)], i), frags, imports: vec![], spreads: vec![] }
+        let opname = if rng.chance(1, 3) { Some(rng.pick(POOL).to_string()) } else { None };
+        EFile { opname, rel: format!("{}f{}.graphql", dirs[rng.below(3)], i), frags, imports: vec![], spreads: vec![] }
     }).collect();
     for i in 0..n {
         for _ in 0..[0, 1, 1, 2, 2, 3][rng.below(6)] {
@@ -1041,6 +1117,25 @@ fn main() {
     for (nf, ml) in &plans {
         exhaustive(*nf, ml, |c| { let r = run_case(&c); push(&mut cases, &c, r, false); });
     }
+    // 2b. termination within a bound: an acyclic graph in which every file is shared by both files of the layer
+    // above (2^depth import paths, 2*depth+1 files).  The resolver enters every file once (C13_linear_work), so
+    // this returns at once; a traversal whose work follows the number of paths does not come back.
+    let mut direct_failures: Vec<Value> = vec![];
+    for depth in [6usize, 30] {
+        let c = layered(depth);
+        let c2 = c.clone();
+        let (tx, rx) = std::sync::mpsc::channel();
+        std::thread::spawn(move || { let _ = run_case(&c2); let _ = tx.send(()); });
+        match rx.recv_timeout(std::time::Duration::from_secs(30)) {
+            Ok(()) => { let r = run_case(&c); push(&mut cases, &c, r, false); }
+            Err(_) => direct_failures.push(json!({
+                "what": format!("resolve_operation_imports did not return within 30 s on an acyclic layered import graph of {} files ({} layers of two files, each importing * from both files of the next layer): the property asks that resolution always terminates, and the traversal must enter each file once", 2 * depth + 1, depth),
+                "classes": [],
+                "files": c.files.iter().map(|f| json!({"path": f.path, "text": f.text})).collect::<Vec<_>>(),
+                "root_path": c.root_path,
+            })),
+        }
+    }
     // 3. random graphs up to 8 files
     let n_rand = if thorough { 40000 } else { 2500 };
     for i in 0..n_rand {
@@ -1084,8 +1179,9 @@ fn main() {
     write_meta(&args.out, &json!({
         "evaluations": cases.len(),
         "distinct_nontrivial": distinct.len(),
-        "rule": "exhaustive-N cases are described by their label: files m{fragment A d0, fragment B d1, query}, x{A d100, B d101}, y{A d200}, z{query} in /p, 'm:A<x,*<y|x:|y:B<m' = m has `#import A from \"./x.graphql\"` then `#import * from \"./y.graphql\"`, x none, y `#import B from \"./m.graphql\"`; root = m; out 'ok:<ids>'. distinct = distinct (resolver content, root path, root text) tuples; every case runs the real parser, resolve_operation_extensions and resolve_operation_imports and is non-trivial in that sense; 'shape' and 'kind' give the split by graph shape and observed outcome",
+        "rule": "exhaustive-N cases are described by their label: files m{fragment A d0, fragment B d1, query Q0x0 d2}, x{fragment A d100, fragment B d101, query A d102}, y{fragment A d200, mutation B d201}, z{subscription A d300} in /p (the operations named A/B must never be imported: only FragmentDefinitions are), 'm:A<x,*<y|x:|y:B<m' = m has `#import A from \"./x.graphql\"` then `#import * from \"./y.graphql\"`, x none, y `#import B from \"./m.graphql\"`; root = m; out 'ok:<ids>'. distinct = distinct (resolver content, root path, root text) tuples; every case runs the real parser, resolve_operation_extensions and resolve_operation_imports and is non-trivial in that sense; 'shape' and 'kind' give the split by graph shape and observed outcome",
         "samples": samples,
+        "direct_failures": direct_failures,
         "distribution": {
             "by_generator": labels, "by_outcome": kinds, "by_shape": shapes,
             "cases_inside_theorem_guard": n_guard, "of_which_exact_or_due_error": n_guard_ok,
